@@ -305,6 +305,31 @@ def monitor_c08(ctx):
             return gens2.num_literal(r)
         src = ex() if r.random() < 0.7 else f'{ex()} {r.choice(["==", "!=", "<", ">", "<=", ">="])} {ex()}'
         pays.append({'src': src})
+    # evaluations of any outcome first (every table entry with missing / surplus / ill-typed arguments, option-like strings
+    # last), the oracle afterwards
+    try:
+        fnames = sorted(k for k in sqimpl.load().functions.FUNCTIONS.keys() if isinstance(k, str) and k.isidentifier() and not k.startswith('__'))
+    except Exception:
+        fnames = ['round', 'floor', 'ceil', 'abs', 'min', 'max', 'sum', 'int', 'float', 'str', 'rand', 'pretty']
+    pool = ['"n/a"', '1', '2', '2.5', '0.10000000000000000000000000005', '-3', '29', '60', 'None', '[1, 2]', '"1.5"', '1000000', '{"a": 1}',
+            '"half_up"', '"up"', '"down"', '"ceiling"', '"floor"', '"half_down"', '"ROUND_HALF_UP"', '"ROUND_UP"', '"05up"', 'True']
+    rr = random.Random(f'{ctx["seed"]}/mon-c08-after')
+    OPTS = ['"half_up"', '"up"', '"down"', '"half_down"', '"floor"', '"ceil"', '"ceiling"', '"half_even"', '"ROUND_HALF_UP"', '"ROUND_UP"', '"05up"', 'True', '60']
+    FIRST = ['"n/a"', '1', '0.10000000000000000000000000005', '1234567890123456789012345678.55', 'None', '[1, 2]']
+    MID = ['2', '1', '29']
+    for fn in fnames:
+        batch = []
+        # option-like last arguments systematically (a rounding mode, a precision), an ill-typed / overlong first one
+        for ar in (2, 3, 4):
+            for o in OPTS:
+                for f0 in FIRST:
+                    mids = [rr.choice(MID) for _ in range(ar - 2)]
+                    batch.append(f'{fn}({", ".join([f0] + mids + [o])})')
+        for ar in (1, 2, 3, 4):
+            for _ in range(sz(ctx, 6, 30)):
+                batch.append(f'{fn}({", ".join(rr.choice(pool) for _ in range(ar))})')
+        pays.append({'after': batch})
+    pays.append({'after': ['1 / 0', '10 ** 1000000', 'float("1e400")', 'round(1, 5000)', '2 ** 0.5', 'int("x")', '0 ** 0', 'sum([1, None])', '1 / 3']})
     pays += [{'src': '0.1 + 0.2 == 0.3'}, {'src': '0.1 + 0.2'}, {'src': '100000000000000000000000000001 - 100000000000000000000000000000'},
              {'src': '0.10000000000000000000000000001 == 0.1'}, {'src': '1 / 3 * 3'}, {'src': '2.5 + 2.50 == 5'}]
     return _run('c08', 'c08', pays, 'expression trees over decimal literals (1..40 digits, forced ties at the 28th digit) with + - * / unary minus and '
@@ -378,7 +403,13 @@ def monitor_c10(ctx):
                 'expect': "[1, None]"},
                {'src': f'r = apply(p => [{call}, p], 5); r', 'astfns': AZ('p = 2\np'), 'absent': ['p'], 'expect': "[2, 5]"},
                {'src': f'r = map([7], p => [{call}, p]); r', 'astfns': AZ('p = 2\np'), 'absent': ['p'], 'expect': "[[2, 7]]"},
-               {'src': f'try_apply(w => {call}, 0); try_apply(v => loc, 0)', 'astfns': AZ('loc = 1\n1 / 0'), 'absent': ['loc'], 'expect': 'None'}]
+               {'src': f'try_apply(w => {call}, 0); try_apply(v => loc, 0)', 'astfns': AZ('loc = 1\n1 / 0'), 'absent': ['loc'], 'expect': 'None'},
+               # a name READ through an outer level first and BOUND at the innermost level afterwards (no call in between): the
+               # later reads see the new local binding; the outer binding is untouched
+               {'src': f'r = {call}; [r, tot]', 'astfns': AZ('before = tot\ntot = before + 2\ntot'), 'names': {'tot': 5}, 'keep': {'tot': 5},
+                'expect': "[7, 5]"},
+               {'src': f'r = {call}; [r, tot]', 'astfns': AZ('before = tot\ntot += 2\ntot + before'), 'names': {'tot': 5}, 'keep': {'tot': 5},
+                'expect': "[12, 5]"}]
     d = _run('c10_locals', 'c10_locals', [{'scenarios': SC}],
              'ast_names lambdas with statement bodies that bind no parameter at the call (declared without parameters / called with zero '
              'arguments) and assign: the locals are gone after the call, from top level and from inside another lambda call, on return and on raise')
@@ -390,6 +421,24 @@ def monitor_c10(ctx):
           {'src': 'a = 1; sub("a = 2"); sub("a"); a', 'expect': '1', 'outer_after': {'a': 1}, 'inner_after': {'a': 2}},
           {'src': 'try_apply(v => sub("1 / 0"), 0); k = 1; k', 'expect': '1', 'outer_after': {'k': 1}, 'inner_after': {'k': None}},
           {'src': 'f = v => v + n; n = 10; sub("n = 1"); f(1)', 'expect': '11', 'outer_after': {'n': 10}, 'inner_after': {'n': 1}}]
+    RE += [{'src': 'a = max(1, 2); max = (x, y) => x; [a, max(1, 2)]', 'expect': '[2, 1]'},
+           {'src': 'k = len([1]); len = v => 9; [k, len([1])]', 'expect': '[1, 9]'},
+           {'src': 'b = total; total = 7; [b, total]', 'names': {'total': 5}, 'expect': '[5, 7]', 'outer_after': {'total': 7}},
+           {'src': 'map([7, 8], secret => subq("secret"))', 'expect': '[ERR, ERR]'},
+           {'src': 'map([1], x => subq("token"))', 'names': {'token': 5}, 'expect': '[ERR]'},
+           {'src': 'tok2 = 3; subq("tok2")', 'expect': 'ERR', 'outer_after': {'tok2': 3}},
+           {'src': 'apply(p => subq("p"), 5)', 'expect': 'ERR'},
+           {'src': 'apply(p => [subq("p"), p], 5)', 'inner': {'p': 2}, 'expect': '[2, 5]'},
+           {'src': 'f = v => v + 1; subq("f(1)")', 'expect': 'ERR'}]
+    HC = [[['eval', 'add_base = v => v + base'], ['set', 'base', 10], ['call', 'add_base', [1], '11'], ['set', 'base', 100], ['call', 'add_base', [1], '101']],
+          [['set', 'base', 10], ['eval', 'add_base = v => v + base; add_base(1)'], ['call', 'add_base', [1], '11'],
+           ['other', 'base = 5; base', {}], ['call', 'add_base', [1], '11']],
+          [['eval', 'measure = v => len(v)'], ['call', 'measure', ['abc'], '3'], ['set', 'len', ['fn', 'host-len']], ['call', 'measure', ['abc'], 'host-len']],
+          [['eval', 'k = 3; getk = v => k'], ['other', 'k = 9; k', {'k': 1}], ['call', 'getk', [0], '3'], ['eval', 'k = 4'], ['call', 'getk', [0], '4']],
+          [['eval', 'shadow = base => base + 1'], ['set', 'base', 50], ['call', 'shadow', [1], '2']]]
+    eh = _run('c10_hostcall', 'c10_hostcall', [{'scenarios': HC}],
+              'lambdas stored in the host mapping by an evaluation and called BY THE HOST afterwards (mapping changed in between, '
+              'evaluations for other mappings in between): free names resolve in the parameters, then the host mapping as it is now, then the builtins')
     e = _run('c10_reenter', 'c10_reenter', [{'scenarios': RE}],
              'a host callable that evaluates another program on the same SqParser with another mapping while the outer evaluation runs: '
              'separate scope stacks (outer assignments / parameters / host names unaffected, inner ones land in the inner mapping)')
@@ -403,7 +452,7 @@ def monitor_c10(ctx):
     f = _run('c10_seq', 'c10_seq', [{'scenarios': SQ[i:i + 5]} for i in range(0, len(SQ), 5)],
              'a lambda stored in the names mapping by one eval, a builtin name it uses rebound in that mapping by a later eval, the lambda called '
              'again: the name resolves to the NEW binding')
-    return _merge('c10', [a, b, c, d, e, f])
+    return _merge('c10', [a, b, c, d, e, eh, f])
 
 
 # ------------------------------------------------------------------ C11 / C17
@@ -421,6 +470,19 @@ def _hist_payloads(ctx, tag, n, caches):
 
 def monitor_c11(ctx):
     pays = _hist_payloads(ctx, 'mon-c11', sz(ctx, 250, 4000), ['none'])
+    for i, pp_ in enumerate(pays):
+        if i % 3 == 0:
+            pp_['also_cached'] = True      # the same history on a parser with a retaining parse cache as well
+    # a list_names generator abandoned INSIDE brackets (and kept referenced), then texts whose line breaks matter
+    for pre, k in (('total(price, qty)', '1'), ('a + [b, c', '2'), ('f(a, [b, {c: d', '3'), ('x = (a,\nb', '2'), ('g(h(i(j', '4'), ('ok\n(p, q)', '2')):
+        for t in ('x = 10\ny = 20\nx + y', 'a = 1\n-1', 'u = [1, 2]\n[0]', 'k = 5\n(k + 1)'):
+            pays.append({'heap': '(U (M 1 (S:69 D:0:0:0:c)))', 'cache': 'none', 'also_cached': True,
+                         'calls': [['names', pre, k], ['eval', t, 0, 1000, 7], ['parse', t], ['names', pre, k], ['parse', t]]})
+    # the same text several times (literals that are mutated, lambdas called repeatedly), for two mappings, plain and cached
+    for t in ['pop([10, 20, 30])', '[3, 1, 2] | pop', 'push([1], 2)', 'mk = n => [1, 2]; push(mk(0), 3); mk(0)', 'x = [1, 2]; x.push(3); x',
+              'pop(["alice", "bob", "carol"], i)', 'd = {"a": [1]}; push(d["a"], 2); d', 'remove([1, 2, 3], 2)', 'insert([1], 0, 5)', '[[1], [2]][0] | pop']:
+        pays.append({'heap': '(U (M 1 (S:69 D:0:0:0:c)) (M 2 (S:69 D:0:1:0:c)))', 'cache': 'none', 'also_cached': True,
+                     'calls': [['eval', t, 0, 1000, 7], ['eval', t, 1, 1000, 7], ['eval', t, 0, 1000, 7], ['parse', t], ['eval', t, 0, 1000, 7]]})
     a = _run('c11', 'c11', pays, 'histories of parse / eval / list_names (partially consumed) / host mutation on one SqParser: every call '
              'repeated on a freshly constructed SqParser with deep-copied equal arguments; result / exception class and message compared')
     b = _run('c11_repeat', 'c11_repeat', [{'define': 'f = n => n + 1 + 1 + 1 + 1 + 1 + 1 + 1 + 1 + 1 + 1', 'call': 'f(1)', 'N': 30, 'times': 9}],
@@ -608,6 +670,8 @@ def monitor_c16(ctx):
             pays.append({'src': c.replace('{E}', add), 'apis': ['eval'], 'planted': True, 'full': True, 'budget': 1000})
     for st in ['c[0] = 1', 'c[10000] = 1', 'd["new"] = 1', 'd["0"] = 1', 'c[0] += 1', 'd["0"] += 1', 'd["new"] += 1', 'x = c\nx.push(1)', 'x = d\nx["n"] = 1']:
         pays.append({'src': st, 'apis': ['eval'], 'planted': True, 'full': True, 'budget': 100000})
+    for src in ['fq(1)', '1 | fq', 'x.fq()', 'map([1, 2], v => fq(v))', '[fq(1), gq(2)]', 'fq(gq(1))', 'apply(v => fq(v), 1)']:
+        pays.append({'cached_calls': [src, [{'fq': 1, 'gq': 2, 'x': 3}, {'x': 3}, {'gq': 2, 'x': 3}, {'fq': 1, 'x': 3}, {}]]})
     for seq in [['zz9 = 5', 'zz9'], ['zz9 = 5', 'zz9 + 1'], ['fz = v => v', 'fz(1)'], ['zz9 = [1]', 'zz9 += [2]'], ['zz9 = 1; zz8 = 2', '[zz8]'],
                 ['q1 = 1', 'q2 = 2', 'q1 + q2'], ['zz9 = 5', 'zz9 += 1'], ['zz9 = 5', 'x = zz9']]:
         pays.append({'seq': seq})
@@ -637,7 +701,11 @@ def monitor_c18(ctx):
         elif k == 1:
             src = proggen.eval_case(r, hostfns=False)[1]
         elif k == 2:
-            nm = r.choice(['%user.name%', '%a.b%', '%a b%', '%order.0%', '%x+y%', '%a%'])
+            nm = r.choice(['%user.name%', '%a.b%', '%a b%', '%order.0%', '%x+y%', '%a%',
+                           # characters a normalising pre-pass could touch: no-break / en / ideographic / zero-width spaces, tabs,
+                           # doubled, leading and trailing blanks, case, composed letters
+                           '%a\u00a0b%', '%a\tb%', '%a  b%', '% a%', '%a %', '%a\u2003b%', '%\u00e9 \u00fc%', '%a\u200bb%', '%A b%', '%a\u3000b%',
+                           '%a b% + %a\u00a0b%', '%x\u00a0%'])
             src = r.choice([nm, f'{nm} + 1', f'x = {nm}', f'f({nm}, y)', f'cfg = {{key: {nm}, "n": count}}\ncfg'])
         else:
             src = r.choice(['cfg = {key: limit, "n": count}\ncfg', 'a.b(c | d(e), f => g)', 'x = [p, q][r:s]', 'del m[k]; m[j] += v', 'list(a, dict())'])
@@ -677,6 +745,10 @@ def monitor_c20(ctx):
         pre = r.choice([['names', 'a\nb\nc\nd', 9], ['names', 'f(a,\n(b,\nc', 2], ['names', 'x = 1\ny = 2\nz', 3], ['names', 'a\n$\nb', 9],
                         ['parse', 'a = 1\nb = )', 0], ['parse', '[1,\n2,\n3', 0], ['names', '"s"\n\n\nq', 1]])
         pays.append({'src': layoutgen.error_text(r), 'fresh': r.random() < 0.5, 'pre': pre})
+    for base in ['x = 1\ny = 2 z w', 'asd asd', 'a = [1,\n2]\nb c', 'f(1, 2)\n) + 1', 'x = 1\n1 +', 'k = 0 0']:
+        vs = [base, '\n\n' + base, '\n\n\n\n' + base, '  ' + base, base + '\n\n', '\t' + base, '\n' + base + ' ', '\r\n' + base, base]
+        pays.append({'cached_seq': vs})
+        pays.append({'cached_seq': list(reversed(vs))})
     for L in (50, 150, 190, 250, 1000, 5000):
         for tokmk in (lambda n: '"' + 'a' * n + '"', lambda n: 'n' * n, lambda n: '%' + 'p' * n + '%', lambda n: '1' * n, lambda n: '1.' + '5' * n):
             pays.append({'src': 'x = 1\ny = 2 ' + tokmk(L), 'fresh': True})
